@@ -46,7 +46,7 @@ const (
 // Fault is one tampering of one shard's stored bytes.
 type Fault struct {
 	Shard int    `json:"shard"`
-	Kind  string `json:"kind"`            // missing | trunc | flip | stale | foreign | junk | dupframe
+	Kind  string `json:"kind"`            // missing | trunc | flip | stale | foreign | othershard | junk | dupframe
 	Where string `json:"where,omitempty"` // trunc: edge | framehdr | payload | shardhdr | zero ; flip: shardhdr | stripe | databytes | payloadlen | hash | payload
 	Frame int    `json:"frame,omitempty"` // frame index (taken modulo the number of frames)
 	Off   int    `json:"off,omitempty"`   // byte offset inside the field / payload (modulo its length)
@@ -153,7 +153,7 @@ func mod(a, n int) int {
 
 // applyFault returns the tampered bytes (nil, true = remove the shard). label names the
 // concrete fault class; noop is true when the fault could not change anything.
-func applyFault(f Fault, raw, stale, foreign []byte) (out []byte, remove bool, label string, noop bool) {
+func applyFault(f Fault, raw, stale, foreign, other []byte) (out []byte, remove bool, label string, noop bool) {
 	offs := frameOffsets(raw)
 	nf := len(offs)
 	frameEnd := func(k int) int {
@@ -176,6 +176,12 @@ func applyFault(f Fault, raw, stale, foreign []byte) (out []byte, remove bool, l
 			return cp, false, "foreign", true
 		}
 		return append([]byte(nil), foreign...), false, "foreign", false
+	case "othershard":
+		// the bytes of another shard of the same part (wrong shard index for this store)
+		if other == nil || bytes.Equal(other, raw) {
+			return cp, false, "othershard", true
+		}
+		return append([]byte(nil), other...), false, "othershard", false
 	case "junk":
 		n := 1 + mod(f.Off, 100)
 		j := make([]byte, n)
@@ -477,7 +483,7 @@ func (r *runner) applySet(id partstore.PartId, faults []Fault, orig, stale, fore
 			// keep it simple and deterministic: one byte-level fault per shard, "missing" may override
 			continue
 		}
-		out, rm, label, noop := applyFault(f, base, st, fo)
+		out, rm, label, noop := applyFault(f, base, st, fo, orig[mod(i+1+mod(f.Off, total-1), total)])
 		if noop {
 			continue
 		}
@@ -554,12 +560,22 @@ func (r *runner) judge(si int, a *applied, res readResult, want []byte, tampered
 	// here: (nF <= P and not exact) or (nF > P and other bytes with clean EOF)
 	td := trustingDecode(r.c.D, r.c.P, tampered)
 	same := (res.err != nil && td.err) || (res.err == nil && !td.err && bytes.Equal(res.data, td.out))
+	// "cause" check of a matcher: with the suspected faults undone (und), a decoder that trusts
+	// consistent shards meets the expectation; for > parity faults it is enough that the undone
+	// faults changed the outcome (another mechanism may then still apply to what is left).
 	satisfied := func(shards [][]byte, faultsLeft int) bool {
 		t := trustingDecode(r.c.D, r.c.P, shards)
 		if !t.err && bytes.Equal(t.out, want) {
 			return true
 		}
-		return faultsLeft > P && t.err
+		if faultsLeft <= P && nF <= P {
+			return false
+		}
+		if t.err {
+			return true
+		}
+		sameAsObserved := res.err == nil && bytes.Equal(t.out, res.data)
+		return nF > P && !sameAsObserved
 	}
 	if same {
 		// KF-C17-1: dataBytes of the first readable shard's frame header is trusted (not authenticated)
@@ -620,12 +636,13 @@ func (r *runner) judge(si int, a *applied, res readResult, want []byte, tampered
 				return true, true
 			}
 		}
-		// KF-C17-3: all shards that are still readable end at the same frame edge -> clean EOF
+		// KF-C17-3: end of part = "no shard has another frame": every shard is missing, unusable at open
+		// (bad shard header) or ends at the same frame edge -> clean EOF
 		if nF > P && res.err == nil && r.env.Known("c17.commonTruncationCleanEOF") {
 			onlyEnd := true
 			for _, ks := range a.kinds {
 				for _, k := range ks {
-					if k != "missing" && !strings.HasPrefix(k, "trunc:") {
+					if k != "missing" && !strings.HasPrefix(k, "trunc:") && k != "flip:shardhdr" && k != "othershard" {
 						onlyEnd = false
 					}
 				}
@@ -648,6 +665,22 @@ func (r *runner) judge(si int, a *applied, res readResult, want []byte, tampered
 		o.Failf("%s: more than parity faults: read returned %d other bytes with a clean EOF (first difference at %d) instead of failing", desc, len(res.data), firstDiff(res.data, want))
 	}
 	return false, false
+}
+
+// emptyFrameShard: valid shard header followed by exactly as many frame headers as the
+// original shard has frames, each announcing a payload of length 0 and carrying no payload.
+func emptyFrameShard(b, orig []byte) bool {
+	nf := len(frameOffsets(orig))
+	if nf == 0 || len(b) != shardHdrSize+nf*frameHdrSize || !bytes.Equal(b[:shardHdrSize], orig[:shardHdrSize]) {
+		return false
+	}
+	for k := 0; k < nf; k++ {
+		fh := b[shardHdrSize+k*frameHdrSize:]
+		if binary.BigEndian.Uint64(fh[0:8]) != uint64(k) || binary.BigEndian.Uint32(fh[12:16]) != 0 {
+			return false
+		}
+	}
+	return true
 }
 
 func firstDiff(a, b []byte) int {
@@ -783,6 +816,14 @@ func run(env *ev.Env, c Case) (o ev.Outcome) {
 				o.Class("heal:restored-identical")
 			} else {
 				o.Class("heal:restored-different-bytes")
+				// KF-C17-5: a healed *parity* shard consists of frames with empty payload
+				// (ReconstructData does not rebuild parity shards), i.e. it is present but useless.
+				if i >= c.D && emptyFrameShard(after[i], orig[i]) && env.Known("c17.healedParityShardEmpty") {
+					o.KnownHits = append(o.KnownHits, "KF-C17-5")
+					o.Class("heal:known-empty-parity-shard")
+					stillFaulty[i] = true
+					a.kinds[i] = []string{"healed-empty-parity"}
+				}
 			}
 		}
 		if len(a.missing) > 0 {
@@ -865,8 +906,8 @@ func genFault(t *rapid.T, total int, kinds []string) Fault {
 	return f
 }
 
-var allKinds = []string{"missing", "missing", "trunc", "trunc", "flip", "flip", "flip", "stale", "foreign", "junk", "dupframe"}
-var detectableKinds = []string{"missing", "missing", "trunc", "flip"}
+var allKinds = []string{"missing", "missing", "trunc", "trunc", "flip", "flip", "flip", "stale", "foreign", "othershard", "junk", "dupframe"}
+var detectableKinds = []string{"missing", "missing", "trunc", "flip", "othershard"}
 
 func genSet(t *rapid.T, d, p int) Set {
 	total := d + p
@@ -984,7 +1025,9 @@ var catalogue = []catEntry{
 	{"flip-payload", Fault{Kind: "flip", Where: "payload", Frame: -1, Off: 0, Bit: 0}},
 	{"stale", Fault{Kind: "stale"}},
 	{"foreign", Fault{Kind: "foreign"}},
+	{"othershard", Fault{Kind: "othershard"}},
 	{"junk", Fault{Kind: "junk", Off: 30}},
+	{"junk-long", Fault{Kind: "junk", Off: 70}},
 	{"dupframe", Fault{Kind: "dupframe", Frame: -1}},
 }
 
@@ -1074,7 +1117,7 @@ func TestC17(t *testing.T) {
 		Level: "fault_enumeration",
 		Rule: "a case = geometry (data 1-3, parity 1-2, stripe 1024) x base store (in-memory / filesystem) x body (sizes 0, 1, around shard and stripe boundaries) x 3-16 fault sets; " +
 			"it is non-trivial when a fault set has exactly parity or parity+1 faulty shards and contains a fault kind other than 'missing'; distinct = distinct case JSON. " +
-			"The directed part enumerates every subset of shards of size <= parity+1 x a 17-entry fault catalogue (plus 'one missing + rest of that kind') for the small geometries",
+			"The directed part enumerates every subset of shards of size <= parity+1 x a 19-entry fault catalogue (plus 'one missing + rest of that kind') for the small geometries",
 		Assumptions: []string{
 			"shard bytes are produced by the real PutPart; stale and foreign shards come from real PutParts of other content / another part id",
 			"flips in the payloadLen field are limited to values < 64 MiB (the reader allocates payloadLen bytes); larger values are a memory-exhaustion concern outside this property",
